@@ -121,6 +121,9 @@ def evalLang (exact : Bool) (id : String) (li : LangInfo) : String :=
     else if li.laEnd.getD s 1 != 0 then some s!"iterator-restarts state={s}"
     else if (li.rla.getD s []) != (li.la.getD s []).map (·.1) then some s!"rust-iterator state={s}"
     else none)
+  -- how the real function treats proper prefixes of "ERROR" is observed, not read off the source:
+  -- the probe `ER` (named) answers 65535 exactly when the comparison is by prefix
+  let exact := exact || !(li.probes.any (fun (named, name, r) => named && name == [69, 82] && r == errorSym))
   let T : SymTab := { exactError := exact, syms := li.syms.toList.map (·.1), fieldNames := li.flds.toList.map (·.1) }
   let corrNames :=
     (firstFail li.syms.toList (fun (si, real) =>
